@@ -5,7 +5,7 @@ From Coq Require Import ZArith List Bool Reals PrimFloat.
 From FT.lib Require Import Num Arr ArrLemmas NumArr.
 From FT.gen Require Import Common Interp2d Interp3d FteikCommon Ray2d Ray3d.
 From FT.proofs Require Import NumFLaws Ray2dProofs.
-From FT.proofs Require Ray3dProofs.
+From FT.proofs Require Ray3dProofs RaySafety2d RaySafety3d RaySafetyExtra RayStep.
 Import ListNotations.
 Open Scope Z_scope.
 
@@ -105,6 +105,86 @@ Theorem C10_nan_end_point_raises_2d :
        u_ray2d_v fuel z x zgrad xgrad zend xend zsrc xsrc stepsize max_step hg = Raise ValueError.
 Proof. exact @Ray2dProofs.ray2d_nan_end_point_raises. Qed.
 
+(* tie: the generated free-step tracer is a fuelled while loop with explicit condition (source at least one step away) and body (interpolate, stop if the gradient norm is not positive, step, clamp, store); every numeric instance *)
+Theorem C10_free_loop_explicit_2d :
+  forall (T : Type) (H : Num T) (z x zgrad xgrad : arr T) (zend xend zsrc xsrc stepsize : T) (max_step : Z),
+       hull2 z x zend xend = true ->
+       forall fuel : nat,
+       u_ray2d_core_v fuel z x zgrad xgrad zend xend zsrc xsrc stepsize max_step false =
+       rbind
+         (while_fuel fuel (RayStep.fcond2 zsrc xsrc stepsize) (RayStep.fbody2 z x zgrad xgrad stepsize max_step)
+            (RayStep.init2 zend xend max_step)) (fin2 zsrc xsrc max_step (nfree_max2 z x stepsize)).
+Proof. exact @RayStep.free_core2_eq. Qed.
+
+(* exact arithmetic: consecutive stored vertices are at most one step apart (clamping onto the hull is non-expansive), every segment except the one that ends at the source *)
+Theorem C10_step_length_2d :
+  forall (z x zgrad xgrad : arr R) (zend xend zsrc xsrc stepsize : R) (max_step : Z) (fuel : nat) 
+         (ray : arr R) (count : Z),
+       u_ray2d_core_v fuel z x zgrad xgrad zend xend zsrc xsrc stepsize max_step false = Ok (ray, count) ->
+       1 <= count ->
+       (0 <= stepsize)%R -> forall k : Z, 0 <= k -> k + 1 < count -> (RayStep.vdist2 ray k (k + 1) <= stepsize)%R.
+Proof. exact @RayStep.free_step_length_2d. Qed.
+
+(* the segment ending at the source is shorter than one step OR the interpolated gradient vanishes at the last stored vertex - exactly known finding F17, no third case *)
+Theorem C10_last_segment_2d :
+  forall (z x zgrad xgrad : arr R) (zend xend zsrc xsrc stepsize : R) (max_step : Z) (fuel : nat) 
+         (ray : arr R) (count : Z),
+       u_ray2d_core_v fuel z x zgrad xgrad zend xend zsrc xsrc stepsize max_step false = Ok (ray, count) ->
+       1 <= count ->
+       let pz := get 0%R ray [count - 1; 0] in
+       let px := get 0%R ray [count - 1; 1] in
+       (RayStep.vdist2 ray (count - 1) count < stepsize)%R \/
+       (stepsize <= RayStep.vdist2 ray (count - 1) count)%R /\
+       u_interp2d_v z x zgrad pz px 0%R = 0%R /\ u_interp2d_v z x xgrad pz px 0%R = 0%R.
+Proof. exact @RayStep.last_segment_2d. Qed.
+
+(* 3D *)
+Theorem C10_step_length_3d :
+  forall (z x y zgrad xgrad ygrad : arr R) (zend xend yend zsrc xsrc ysrc stepsize : R) 
+         (max_step : Z) (fuel : nat) (ray : arr R) (count : Z),
+       u_ray3d_core_v fuel z x y zgrad xgrad ygrad zend xend yend zsrc xsrc ysrc stepsize max_step false =
+       Ok (ray, count) ->
+       1 <= count ->
+       (0 <= stepsize)%R -> forall k : Z, 0 <= k -> k + 1 < count -> (RayStep.vdist3 ray k (k + 1) <= stepsize)%R.
+Proof. exact @RayStep.free_step_length_3d. Qed.
+
+(* 3D *)
+Theorem C10_last_segment_3d :
+  forall (z x y zgrad xgrad ygrad : arr R) (zend xend yend zsrc xsrc ysrc stepsize : R) 
+         (max_step : Z) (fuel : nat) (ray : arr R) (count : Z),
+       u_ray3d_core_v fuel z x y zgrad xgrad ygrad zend xend yend zsrc xsrc ysrc stepsize max_step false =
+       Ok (ray, count) ->
+       1 <= count ->
+       let pz := get 0%R ray [count - 1; 0] in
+       let px := get 0%R ray [count - 1; 1] in
+       let py := get 0%R ray [count - 1; 2] in
+       (RayStep.vdist3 ray (count - 1) count < stepsize)%R \/
+       (stepsize <= RayStep.vdist3 ray (count - 1) count)%R /\
+       u_interp3d_v z x y zgrad pz px py 0%R = 0%R /\
+       u_interp3d_v z x y xgrad pz px py 0%R = 0%R /\ u_interp3d_v z x y ygrad pz px py 0%R = 0%R.
+Proof. exact @RayStep.last_segment_3d. Qed.
+
+(* public single-ray entry point (source first): all segments but the first are at most one step long; the first is, unless the gradient vanishes at vertex 1 *)
+Theorem C10_returned_polyline_step_length_2d :
+  forall (fuel : nat) (z x zgrad xgrad p src : arr R) (stepsize : R) (max_step : Z) (r : arr R),
+       ray2d_1 fuel z x zgrad xgrad p src stepsize max_step false = Ok r ->
+       exists count : Z,
+         1 <= count < max_step /\
+         shape r = [count + 1; 2] /\
+         ((0 <= stepsize)%R -> forall i : Z, 1 <= i < count -> (RayStep.vdist2 r i (i + 1) <= stepsize)%R) /\
+         ((RayStep.vdist2 r 0 1 < stepsize)%R \/
+          (stepsize <= RayStep.vdist2 r 0 1)%R /\
+          u_interp2d_v z x zgrad (get 0%R r [1; 0]) (get 0%R r [1; 1]) 0%R = 0%R /\
+          u_interp2d_v z x xgrad (get 0%R r [1; 0]) (get 0%R r [1; 1]) 0%R = 0%R).
+Proof. exact @RayStep.ray2d_1_step_length. Qed.
+
+(* the unconditional clause 'consecutive vertices at most one step apart' is REFUTED for the segment touching the source: a returned ray with stepsize 1 and a last segment of length 2 (exact arithmetic; binary64 version RayStep.last_segment_2d_refuted_binary64) *)
+Theorem C10_last_segment_longer_than_a_step_witness :
+  exists ray : arr R,
+         u_ray2d_core_v 11 RayStep.exz RayStep.exx RayStep.exgs RayStep.exg0 3%R 0%R 0%R 0%R 1%R 10 false = Ok (ray, 2) /\
+         RayStep.vdist2 ray 1 2 = 2%R /\ ~ (RayStep.vdist2 ray 1 2 <= 1)%R.
+Proof. exact @RayStep.last_segment_2d_refuted. Qed.
+
 Print Assumptions C10_terminates_within_budget_2d.
 Print Assumptions C10_terminates_within_budget_3d.
 Print Assumptions C10_count_range_2d.
@@ -115,3 +195,10 @@ Print Assumptions C10_vertices_in_hull_2d.
 Print Assumptions C10_vertices_in_hull_3d.
 Print Assumptions C10_value_error_iff_outside_2d.
 Print Assumptions C10_nan_end_point_raises_2d.
+Print Assumptions C10_free_loop_explicit_2d.
+Print Assumptions C10_step_length_2d.
+Print Assumptions C10_last_segment_2d.
+Print Assumptions C10_step_length_3d.
+Print Assumptions C10_last_segment_3d.
+Print Assumptions C10_returned_polyline_step_length_2d.
+Print Assumptions C10_last_segment_longer_than_a_step_witness.
